@@ -26,10 +26,28 @@ class World:
     """One scratch area owned by one simulated run."""
 
     def __init__(self, tag: str):
-        self.base = core.scratch_base() / f"lspv-{os.getpid()}-{tag}"
-        if self.base.exists():
-            shutil.rmtree(self.base)
-        self.base.mkdir(parents=True)
+        # The path the generator sees is part of the simulated world (path strings get hashed, sorted,
+        # resolved): it is a function of the tag (= run seed) alone so that a replay sees the very same
+        # strings.  Ownership (for cleanup after a killed check) is recorded inside the directory.  Only
+        # when another LIVE process holds the same name does the world fall back to a private name.
+        sb = core.scratch_base()
+        cand = sb / f"lspv-w-{tag}"
+        self.base = None  # type: ignore[assignment]
+        for _ in range(3):
+            try:
+                cand.mkdir()
+                (cand / ".owner").write_text(str(os.getpid()))
+                self.base = cand
+                break
+            except FileExistsError:
+                if core.scratch_owner_alive(cand):
+                    break
+                shutil.rmtree(cand, ignore_errors=True)
+        if self.base is None:
+            self.base = sb / f"lspv-{os.getpid()}-{tag}"
+            if self.base.exists():
+                shutil.rmtree(self.base)
+            self.base.mkdir(parents=True)
         self.n_invocations = 0
 
     def path(self, *parts: str) -> pathlib.Path:
